@@ -1,6 +1,7 @@
 package main
 
 import (
+	"strings"
 	"encoding/binary"
 	"fmt"
 	"math"
@@ -721,7 +722,7 @@ func seriesCase(pts []geometry.Point, closed bool) rt.Case {
 }
 
 func runC04(r *rt.Run) {
-	r.Rule = "insert histories: every point sequence up to a depth over small lattices; 16 layout families x sizes crossing every structural threshold (plus 12 fixed deep-and-bushy quadtree layouts: a depth-16 chain of split nodes in each corner with every sibling quad occupied at every level) x <=1 (thorough <=2 for n<=66) displaced points at every position x 25 targets; each under {r-tree, quadtree} x MinPoints {1, n, n+1}, open and closed; probes: grid of query rectangles incl. infinite bounds and 1-ulp neighbours x every early-stop position; then predicate answers under every index and after Move by 7 offsets (exact, far beyond the extent, inexact in binary) incl. the moved series' own Search; non-trivial = series with at least one segment"
+	r.Rule = "insert histories: every point sequence up to a depth over small lattices; 16 layout families x sizes crossing every structural threshold (plus 12 fixed deep-and-bushy quadtree layouts: a depth-16 chain of split nodes in each corner with every sibling quad occupied at every level) x <=1 (thorough <=2 for n<=66) displaced points at every position x 25 targets; each under {r-tree, quadtree} x MinPoints {1, n, n+1}, open and closed; probes: grid of query rectangles incl. infinite bounds and 1-ulp neighbours x every early-stop position; then predicate answers under every index and after Move by 7 offsets (exact, far beyond the extent, inexact in binary) incl. the moved series' own Search; IndexOptions.Kind values outside the three named ones; non-trivial = series with at least one segment"
 	r.Assume = []string{"oracle: brute force over SegmentAt(i).Rect() by definition", "index bytes are decoded only to measure which encodings occurred"}
 	var stats idxStats
 	r.Describe = runC04Describe
@@ -866,6 +867,7 @@ func runC04(r *rt.Run) {
 
 	// (c) consequence: predicates identical under every index and after Move
 	c04Predicates(r)
+	c04UnknownKinds(r)
 	r.Sample(map[string]any{"family": "cluster+outlier", "n": 65537, "note": "forces depth-16 overflow buckets and 4-byte items"})
 	r.Sample(seriesCase(ident.pts(P2(0, 0, 1, 0, 1, 0, 0, 1)), true))
 }
@@ -895,6 +897,49 @@ func c04Predicates(r *rt.Run) {
 		c04PredJob(jobs[i].f, jobs[i].n, w, func(class string, c rt.Case, exp, got string) {
 			w.Fail(class, func() (rt.Case, string, string) { return c, exp, got })
 		})
+	})
+}
+
+// c04UnknownKinds: IndexOptions.Kind values outside {None, RTree, QuadTree}
+// (the field is an open integer type, ParseOptions.IndexGeometryKind passes
+// it through): whatever the library does with them, Search stays exact.
+func c04UnknownKinds(r *rt.Run) {
+	kinds := []geometry.IndexKind{3, 7, 255}
+	var jobs [][]geometry.Point
+	for _, f := range families {
+		if f.name == "huge" || f.name == "huge-one-sided" {
+			continue
+		}
+		for _, n := range []int{2, 5, 17, 40, 70} {
+			jobs = append(jobs, f.gen(n))
+		}
+	}
+	r.Bounds["unknown_index_kind_series"] = len(jobs) * len(kinds) * 2
+	r.ParFor(len(jobs), func(i int, w *rt.Worker) {
+		pts := jobs[i]
+		queries := queryRects(pts, 3)
+		ctx := &c04ctx{}
+		for _, k := range kinds {
+			for _, mp := range []int{1, 64} {
+				for _, closed := range []bool{false, true} {
+					s := mkSeries(pts, closed, &geometry.IndexOptions{Kind: k, MinPoints: mp})
+					segs, rects := segsOf(s)
+					w.States++
+					for _, q := range queries {
+						if what, exp, got := checkSearch(ctx, s, segs, rects, q, 1, w); what != "" {
+							k, mp, closed := k, mp, closed
+							w.Fail("search-unknown-kind-"+what, func() (rt.Case, string, string) {
+								c := seriesCase(pts, closed)
+								c.Cfg = fmt.Sprintf("kind%d/min%d", int(k), mp)
+								c.B = &rt.G{K: "rect", P: [][2]float64{{q.Min.X, q.Min.Y}, {q.Max.X, q.Max.Y}}}
+								return c, exp, got
+							})
+							break
+						}
+					}
+				}
+			}
+		}
 	})
 }
 
@@ -1071,7 +1116,11 @@ func evalC04(c *rt.Case) (bool, string, string, error) {
 	var mp int
 	fmt.Sscanf(c.Cfg, "%s", &name)
 	var kind geometry.IndexKind = geometry.RTree
-	if len(c.Cfg) >= 8 && c.Cfg[:8] == "quadtree" {
+	if strings.HasPrefix(c.Cfg, "kind") {
+		var kn int
+		fmt.Sscanf(c.Cfg, "kind%d/min%d", &kn, &mp)
+		kind = geometry.IndexKind(kn)
+	} else if len(c.Cfg) >= 8 && c.Cfg[:8] == "quadtree" {
 		kind = geometry.QuadTree
 		fmt.Sscanf(c.Cfg, "quadtree/min%d", &mp)
 	} else {
